@@ -288,8 +288,7 @@ func init() {
 			"error texts are compared by content (must contain the documented fragments), not verbatim",
 		},
 		BudgetQuick: 240 * time.Second, BudgetThorough: 1500 * time.Second,
-		Prepare:     PrepareUniverse,
-		CaseTimeout: 900 * time.Second,
+		Prepare: PrepareUniverse,
 		Run: func(w *W) {
 			cases := c02cases(w.Env.Quick())
 			runBatches(w, "c02", cases, 48, behaviourOracle)
